@@ -2,7 +2,8 @@
    Property theorems only; every proof is `exact <lemma>`; Print Assumptions under each. *)
 From Coq Require Import List ZArith NArith Bool Lia.
 Import ListNotations.
-Require Import Pyrefact.Base Pyrefact.SpanModel Pyrefact.SpanProofs.
+Require Import Pyrefact.Base Pyrefact.SpanModel Pyrefact.SpanProofs Pyrefact.SpanIgnoreBridge.
+Require Pyrefact.IgnoreModel.
 Open Scope Z_scope.
 
 (* T13.1 Match line/column: for EVERY source and every offset p inside it, the reported line is
@@ -184,6 +185,20 @@ Theorem T13_5_insertion_beyond_end :
   forall s coms p, len s < p -> has_ignore_comment s coms (p, p) = false.
 Proof. exact has_ignore_insertion_beyond. Qed.
 Print Assumptions T13_5_insertion_beyond_end.
+
+(* f) at the end of the text: refused iff there is no final line terminator and the last character is protected *)
+Theorem T13_5_insertion_at_end :
+  forall s coms,
+    has_ignore_comment s coms (len s, len s)
+    = negb (terminated s) && has_ignore_comment s coms (len s - 1, len s).
+Proof. exact has_ignore_insertion_at_end. Qed.
+Print Assumptions T13_5_insertion_at_end.
+
+(* g) the K3 model of has_ignore_comment and the independently written model of property C20 are the same function *)
+Theorem T13_5_same_as_C20_model :
+  forall s coms r, has_ignore_comment s coms r = Pyrefact.IgnoreModel.has_ignore s coms r.
+Proof. exact has_ignore_comment_same. Qed.
+Print Assumptions T13_5_same_as_C20_model.
 
 (* T13.4a findall is the list of Match.string of finditer, in order *)
 Theorem T13_4_findall_texts_of_finditer :
